@@ -222,7 +222,7 @@ Definition check (c : cval) : verdict :=
   | L [L [I variant; L steps]; L outs] =>
     match dec_all dec_step steps, dec_all dec_sobs outs with
     | Some ss, Some impl =>
-      let is_map := (variant <? 2) || (variant =? 4) in
+      let is_map := (variant <? 2) || (variant =? 4) || (variant =? 5) in
       let init := if is_map then IMap new_map
                   else if variant =? 2 then IS2S new_s2s else IS2S zero_s2s in
       let '(m1, fin) := model_run poly_hash false init ss in
